@@ -31,6 +31,15 @@ def short(path):
 
 def judge(rep, rule, key, where, actual, expected, mode, fn, what, invert=False):
     d, notes = compare(actual, expected)
+    if d == MIXED:
+        # not comparable as written: the two may still be the same value with its conditionals nested differently (a
+        # case distinction inside a min / sum on one side, around it on the other) -- decided term by term
+        from . import linarith
+        try:
+            if linarith.terms_equal(T.canon(T.norm_bv(actual), True), T.canon(T.norm_bv(expected), True), fuel=7):
+                d, notes = EQ, ['proved equal to the equation term by term (conditionals nested differently)']
+        except RecursionError:
+            pass
     if invert:
         d = {UNDER: OVER, OVER: UNDER}.get(d, d)
     fact = f'{what} = {T.show(T.norm_bv(actual))}'
